@@ -420,7 +420,7 @@ def run(w: World, rep: Report):
     from .report import depend
     depend(rep, w, 'rules_c06', ('C06.R6',), 'C01.TD6',
            'a DEF of a later script takes effect whatever earlier scripts defined (C06.R6 re-evaluated): an earlier definition cannot turn a later DEF into a no-op', floor=3)
-    depend(rep, w, 'rules_c07', ('C07.R4c',), 'C01.TD7',
+    depend(rep, w, 'rules_c07', ('C07.R4b', 'C07.R4c'), 'C01.TD7',
            'the call budget is one budget for the whole list (documented: enforced across the total execution): each '
            'further tape continues from the count of the tape that ran last (C07.R4c re-evaluated)', floor=1)
     depend(rep, w, 'rules_c06', ('C06.R1', 'C06.R1b'), 'C01.TD1',
